@@ -9,7 +9,7 @@
 (* and stops exactly when everything is visited, as long as no trial ended between two suggests.     *)
 (* AlgAgreesAlways (the same without that proviso) is EXPECTED to fail: that is finding K3.          *)
 EXTENDS BruteForce
-CONSTANTS MaxD, MaxB, Caps
+CONSTANTS MaxD, MaxB, MaxLeaves, Caps
 
 VARIABLE hist            \* parameter paths of the finished trials, as the storage hands them to the sampler
 mcvars == <<vars, hist>>
@@ -22,7 +22,7 @@ Shapes(d) ==
   (IF d = 0 THEN {}
    ELSE UNION {{UNION {{<<v>> \o p : p \in f[v]} : v \in 1..k} : f \in [1..k -> Shapes(d - 1)]} : k \in 1..MaxB})
 Named(S)  == {[i \in 1..Len(p) |-> Step(Names[i], p[i])] : p \in S}
-Programs  == {Named(S) : S \in Shapes(MaxD)}
+Programs  == {Named(S) : S \in {X \in Shapes(MaxD) : Cardinality(X) <= MaxLeaves}}
 
 ASSUME \A P \in Programs : WellFormed(P)
 
@@ -30,7 +30,7 @@ Init == (\E P \in Programs : InitFor(P)) /\ hist = {}
 
 MCOptimize(cap) == Optimize(cap) /\ UNCHANGED hist
 MCStartTrial    == StartTrial /\ UNCHANGED hist
-MCSuggest(v)    == Suggest(NextName(cur), v) /\ UNCHANGED hist
+MCSuggest(v)    == running /\ Inner(cur) /\ Suggest(NextName(cur), v) /\ UNCHANGED hist
 MCFinish(out)   == Finish(out) /\ hist' = hist \cup {cur}
 MCAbort(out)    == Abort(out) /\ hist' = hist \cup {cur}
 MCReturnSelf    == ReturnSelf /\ UNCHANGED hist
@@ -41,7 +41,7 @@ MCDone          == Done /\ UNCHANGED hist
 Next ==
   \/ \E cap \in Caps : MCOptimize(cap)
   \/ MCStartTrial
-  \/ \E v \in 1..MaxB : running /\ Inner(cur) /\ MCSuggest(v)
+  \/ \E v \in 1..MaxB : MCSuggest(v)
   \/ \E out \in Outcomes : MCFinish(out)
   \/ \E out \in {"FAIL", "PRUNED"} : MCAbort(out)
   \/ MCReturnSelf
